@@ -293,6 +293,156 @@ def rule_walk(ck: Check, repo: Repo) -> None:
 
 
 
+# ------------------------------------------------------------------ path bases of the VCS membership tests
+def rule_path_bases(ck: Check, repo: Repo, rid: str) -> None:
+    """Units-of-measure check for paths in reuse.vcs: every `is_ignored` / `is_submodule` compares the queried path,
+    made relative to the root, with members of a set collected from the VCS.  Both sides must have the SAME base
+    (root-relative): a set whose members are joined with the root (or a query that is not made relative) compares
+    unequal for every working directory but one, and ignored / submodule files silently become covered files."""
+    r = ck.rule(rid, "VCS membership tests compare paths of the same base (query made root-relative; collected sets root-relative)")
+    REL, ROOTED, UNKNOWN = "root-relative", "joined-with-root", "unknown"
+    n_sites = 0
+    for cq, cls in sorted(repo.classes.items()):
+        if not cq.startswith("reuse.vcs.VCSStrategy"):
+            continue
+        methods = {n.name: n for n in cls.body if isinstance(n, ast.FunctionDef)}
+        # attribute -> base of the members of the collection stored there
+        member_base: dict[str, str] = {}
+        init = methods.get("__init__")
+
+        def elt_base(e: ast.AST, fn) -> str:
+            """Base of one path-valued expression."""
+            if isinstance(e, ast.Call):
+                f = ast.unparse(e.func)
+                if f == "relative_from_root":
+                    return REL
+                if f in ("Path", "PurePath") and e.args:
+                    a = e.args[0]
+                    if isinstance(a, ast.Attribute) and ast.unparse(a) == "self.root":
+                        return ROOTED
+                    if isinstance(a, ast.BinOp):
+                        return elt_base(a, fn)
+                    return REL  # a path string as printed by the VCS (relative to the root: cwd=self.root)
+                if isinstance(e.func, ast.Attribute) and e.func.attr in ("resolve", "absolute", "expanduser"):
+                    return elt_base(e.func.value, fn)
+                if isinstance(e.func, ast.Attribute) and e.func.attr == "joinpath":
+                    return elt_base(e.func.value, fn)
+                if isinstance(e.func, ast.Attribute) and e.func.attr == "relative_to" and e.args \
+                        and ast.unparse(e.args[0]) in ("self.root", "self.root.resolve()"):
+                    return REL
+            if isinstance(e, ast.BinOp) and isinstance(e.op, ast.Div):
+                if ast.unparse(e.left) in ("self.root", "Path(self.root)", "self.root.resolve()"):
+                    return ROOTED
+                return elt_base(e.left, fn)
+            if isinstance(e, ast.Attribute) and ast.unparse(e) == "self.root":
+                return ROOTED
+            if isinstance(e, ast.Attribute) and e.attr in ("parts", "parent", "parents"):
+                return elt_base(e.value, fn)
+            if isinstance(e, ast.Subscript):
+                return elt_base(e.value, fn)
+            if isinstance(e, ast.Name):
+                from ..rules import single_assign_value
+                d = single_assign_value(fn, e.id)
+                if d is not None:
+                    return elt_base(d, fn)
+                # loop / comprehension variable over a collected set
+                for n in ast.walk(fn):
+                    gens = n.generators if isinstance(n, (ast.GeneratorExp, ast.ListComp, ast.SetComp)) else []
+                    for g in gens:
+                        if isinstance(g.target, ast.Name) and g.target.id == e.id:
+                            return coll_base(g.iter, fn)
+                    if isinstance(n, ast.For) and isinstance(n.target, ast.Name) and n.target.id == e.id:
+                        return coll_base(n.iter, fn)
+            return UNKNOWN
+
+        def coll_base(e: ast.AST, fn) -> str:
+            t = ast.unparse(e)
+            if t.startswith("self.") and t[5:] in member_base:
+                return member_base[t[5:]]
+            if isinstance(e, (ast.SetComp, ast.ListComp, ast.GeneratorExp)):
+                return elt_base(e.elt, fn)
+            if isinstance(e, ast.Call) and ast.unparse(e.func) in ("set", "list", "sorted", "frozenset") and e.args:
+                return coll_base(e.args[0], fn)
+            return UNKNOWN
+
+        if init is not None:
+            for st in ast.walk(init):
+                if isinstance(st, ast.Assign) and len(st.targets) == 1 and ast.unparse(st.targets[0]).startswith("self._") \
+                        and isinstance(st.value, ast.Call) and ast.unparse(st.value.func).startswith("self._find_"):
+                    finder = methods.get(ast.unparse(st.value.func)[5:])
+                    if finder is None:
+                        continue
+                    bases = {coll_base(rt.value, finder) for rt in ast.walk(finder) if isinstance(rt, ast.Return) and rt.value is not None}
+                    member_base[ast.unparse(st.targets[0])[5:]] = bases.pop() if len(bases) == 1 else UNKNOWN
+        for mname in ("is_ignored", "is_submodule"):
+            m = methods.get(mname)
+            if m is None:
+                continue
+            for n in ast.walk(m):
+                if not isinstance(n, ast.Compare) or len(n.ops) != 1:
+                    continue
+                op = n.ops[0]
+                left, right = n.left, n.comparators[0]
+                if isinstance(op, (ast.In, ast.NotIn)):
+                    lb, rb = elt_base(left, m), coll_base(right, m)
+                elif isinstance(op, (ast.Eq, ast.NotEq)):
+                    lb, rb = elt_base(left, m), elt_base(right, m)
+                else:
+                    continue
+                if lb == UNKNOWN and rb == UNKNOWN:
+                    continue  # not a path membership test
+                n_sites += 1
+                r.instance(f"{cq}.{mname}:{ast.unparse(n)[:50]}", {"class": cq.split(".")[-1], "method": mname,
+                                                                    "test": ast.unparse(n)[:90], "left": lb, "right": rb}, f"{cq}.{mname}")
+                if lb != rb or lb == UNKNOWN:
+                    r.violation(f"{cq}.{mname}", f"path bases differ: {lb} vs {rb}",
+                                f"`{ast.unparse(n)[:100]}` compares a {lb} path with {rb} paths; they can only be equal when the"
+                                f" working directory happens to be the root, so ignored files / submodules stop being recognised"
+                                f" (and become covered files) from anywhere else", repo.loc(n))
+            # Jujutsu-style: `tracked.is_relative_to(path)` / parents tests
+            for c in ast.walk(m):
+                if isinstance(c, ast.Call) and isinstance(c.func, ast.Attribute) and c.func.attr in ("is_relative_to", "samefile") and c.args:
+                    lb, rb = elt_base(c.func.value, m), elt_base(c.args[0], m)
+                    n_sites += 1
+                    r.instance(f"{cq}.{mname}:{ast.unparse(c)[:50]}", {"class": cq.split(".")[-1], "method": mname,
+                                                                        "test": ast.unparse(c)[:90], "left": lb, "right": rb}, f"{cq}.{mname}")
+                    if lb != rb or lb == UNKNOWN:
+                        r.violation(f"{cq}.{mname}", f"path bases differ: {lb} vs {rb}", f"`{ast.unparse(c)[:100]}`", repo.loc(c))
+    r.floor(5, "VCS membership tests", got=n_sites)
+
+
+
+def file_list_source(r, repo: Repo) -> None:
+    """_generate_file_reports: the examined files are subset_files(F) exactly when a subset was GIVEN (`is not None`;
+    an empty F is still a subset: nothing is examined), else all_files()."""
+    gfr = repo.func("reuse.report._generate_file_reports")
+    p_subset = "subset_files"
+    mapped = [c.args[1] for c in find_calls(gfr, lambda c, f: f in ("pool.map", "map")) if len(c.args) > 1]
+    name = mapped[0].id if mapped and isinstance(mapped[0], ast.Name) else "files"
+    src_txt = expr_text(gfr, ast.Name(name, ast.Load()))
+    r.instance("report-file-source", {"files": src_txt})
+    try:
+        e = ast.parse(src_txt, mode="eval").body
+    except SyntaxError:
+        e = None
+    ok = False
+    why = "expected Project.subset_files(subset_files) if a subset was given else Project.all_files()"
+    if isinstance(e, ast.IfExp):
+        t = ast.unparse(e.test)
+        a, b = ast.unparse(e.body), ast.unparse(e.orelse)
+        if t == f"{p_subset} is None":
+            t, a, b = f"{p_subset} is not None", b, a
+        if a == f"project.subset_files({p_subset})" and b == "project.all_files()":
+            if t == f"{p_subset} is not None":
+                ok = True
+            elif t in (p_subset, f"bool({p_subset})", f"len({p_subset}) > 0"):
+                why = (f"the test `{t}` treats an EMPTY subset like no subset: `lint-file` without files (or with only"
+                       f" uncovered ones filtered to nothing) would lint the whole project")
+    if not ok:
+        r.violation("reuse.report._generate_file_reports", "file list source", f"files = {src_txt}; {why}", repo.loc(gfr))
+
+
+
 def shared_decision(ck: Check, repo: Repo, rid: str) -> None:
     """The decision table of is_path_ignored for another property that depends on the covered-file set (the name
     languages themselves are C03-R1's business; only the meson parent language is needed to instantiate the table)."""
@@ -425,12 +575,7 @@ def rule_forwarding(ck: Check, repo: Repo) -> None:
     # file list of the reports comes only from Project.all_files / subset_files
     gfr = repo.func("reuse.report._generate_file_reports")
     ck.analysed_fn("reuse.report._generate_file_reports")
-    files_src = expr_text(gfr, ast.Name("files", ast.Load()))
-    r.instance("report-file-source", {"files": files_src})
-    if files_src != "project.subset_files(subset_files) if subset_files is not None else project.all_files()":
-        r.violation("reuse.report._generate_file_reports", "file list source",
-                    f"files = {files_src}; expected Project.subset_files(subset_files) / Project.all_files()",
-                    repo.loc(gfr))
+    file_list_source(r, repo)
     mapped = [ast.unparse(c.args[1]) for c in find_calls(gfr, lambda c, f: f in ("pool.map", "map")) if len(c.args) > 1]
     if sorted(set(mapped)) != ["files"] or len(mapped) < 2:
         r.violation("reuse.report._generate_file_reports", "mapped collection",
@@ -550,6 +695,7 @@ def run(ck: Check, repo: Repo) -> None:
     folder = Folder(repo)
     langs = rule_languages(ck, repo, folder)
     rule_decision(ck, repo, langs)
+    rule_path_bases(ck, repo, "R6")
     rule_walk(ck, repo)
     rule_forwarding(ck, repo)
     rule_vcs(ck, repo)
